@@ -75,6 +75,88 @@ func c04Variadic(first bool, fast bool) string {
 	return ""
 }
 
+// c04NameList is a named slice type: a []string value is assignable to it, yet it is another type.
+type c04NameList []string
+type c04NamesFast func(c04NameList) string
+type c04RecvFast func(<-chan int) string
+
+func (f c04NamesFast) Invoke(a []interface{}) ([]reflect.Value, error) {
+	return c04rv(f(a[0].(c04NameList))), nil
+}
+func (f c04RecvFast) Invoke(a []interface{}) ([]reflect.Value, error) {
+	return c04rv(f(a[0].(<-chan int))), nil
+}
+
+// c04Assignable: a parameter receives the value registered for EXACTLY its type. A value registered under a
+// type that is merely assignable to it (a bidirectional channel for a directional one, an unnamed slice for a
+// named one) does not count: the invocation fails naming the type, plain and fast alike; an exact
+// registration in an outer scope is found.
+func c04Assignable(which string, fast, outerExact bool) string {
+	inner, outer := inject.New(), inject.New()
+	inner.SetParent(outer)
+	ch := make(chan int)
+	inner.Map(ch)
+	inner.Map([]string{"unnamed"})
+	outerRecv := make(chan int)
+	if outerExact {
+		outer.Set(reflect.TypeOf((<-chan int)(nil)), reflect.ValueOf((<-chan int)(outerRecv)))
+		outer.Map(c04NameList{"exact"})
+	}
+	n, got := 0, ""
+	var f interface{}
+	var missing string
+	switch which {
+	case "recv-chan":
+		missing = "<-chan int"
+		h := func(c <-chan int) string {
+			n++
+			if c == (<-chan int)(outerRecv) {
+				got = "outer-exact"
+			} else {
+				got = "some other channel"
+			}
+			return "ran"
+		}
+		f = h
+		if fast {
+			f = c04RecvFast(h)
+		}
+	default:
+		missing = "c04NameList"
+		h := func(v c04NameList) string { n++; got = strings.Join(v, ","); return "ran" }
+		f = h
+		if fast {
+			f = c04NamesFast(h)
+		}
+	}
+	var err error
+	var pan interface{}
+	func() {
+		defer func() { pan = recover() }()
+		_, err = inner.Invoke(f)
+	}()
+	if pan != nil {
+		return fmt.Sprintf("Invoke panicked: %v", pan)
+	}
+	if !outerExact {
+		if err == nil || n != 0 {
+			return fmt.Sprintf("parameter of type %s with only an assignable (not identical) type registered: Invoke reported %v and the body ran %d times with %q", missing, err, n, got)
+		}
+		if !strings.Contains(err.Error(), missing) {
+			return fmt.Sprintf("error %q does not name the unresolvable type %s", err, missing)
+		}
+		return ""
+	}
+	want := "exact"
+	if which == "recv-chan" {
+		want = "outer-exact"
+	}
+	if err != nil || n != 1 || got != want {
+		return fmt.Sprintf("parameter of type %s, registered exactly in the outer scope (an assignable type sits in the inner scope): Invoke reported %v, body ran %d times with %q, expected the outer scope's value", missing, err, n, got)
+	}
+	return ""
+}
+
 // c04Many: a scope that holds more than a handful of types; one of them is registered again (Map / MapTo /
 // Set alike) and every type is resolved: the re-registered one gives the new value, all others their own.
 func c04Many(k int, api string) string {
@@ -350,6 +432,22 @@ func c04SealedPhase(r *core.Run) {
 					l.Violate(fmt.Sprintf("variadic-handler/fast=%v", fast), bad, c04Case{What: "variadic", Fast: fast, Target: map[bool]int{true: 1, false: 0}[first]})
 				} else {
 					l.Class("variadic-handler:unresolved")
+				}
+			}
+		}
+		for _, which := range []string{"recv-chan", "named-slice"} {
+			for _, fast := range []bool{false, true} {
+				for _, outerExact := range []bool{false, true} {
+					l.Evals++
+					l.Transitions++
+					l.Traces++
+					l.NonTrivial++
+					if bad := c04Assignable(which, fast, outerExact); bad != "" {
+						l.Class("mismatch")
+						l.Violate(fmt.Sprintf("assignable-is-not-exact/%s/fast=%v", which, fast), bad, c04Case{What: "assignable:" + which, Fast: fast, Target: map[bool]int{true: 1, false: 0}[outerExact]})
+					} else {
+						l.Class("assignable-type:not-a-registration")
+					}
 				}
 			}
 		}
